@@ -480,6 +480,10 @@ class CallsMixin:
             return Z.is_intlike(v)
         if name == 'float':
             return Z.is_floatlike(v)
+        if name == 'complex':
+            # complex numbers are outside the value model (evidence: assumption NOCOMPLEX)
+            self.used_assumptions.add('NOCOMPLEX')
+            return z3.BoolVal(False)
         if name in ('numbers.Number', 'Number'):
             # complex numbers are not modelled (noted in evidence)
             return z3.Or(Z.is_num(v), Z.is_special(v))
@@ -582,6 +586,7 @@ class CallsMixin:
                 if s2 is None:
                     continue
             self.used_assumptions.add('SUM-real')
+            s2 = s2.with_meta(sums=list(s2.meta.get('sums', [])) + [(arr, view.n)])
             outs.append((s2, Z.mk_r(Z.SUMR(arr, view.n))))
         return outs
 
@@ -996,15 +1001,15 @@ class CallsMixin:
 
     def spec_is_inf(self, node, st):
         (v,) = self._sargs(node, st)
-        return Z.mk_b(z3.Or(Val.is_pinf(v), Val.is_ninf(v)))
+        return Z.mk_b(z3.Or(Z.is_pinf(v), Z.is_ninf(v)))
 
     def spec_is_pinf(self, node, st):
         (v,) = self._sargs(node, st)
-        return Z.mk_b(Val.is_pinf(v))
+        return Z.mk_b(Z.is_pinf(v))
 
     def spec_is_ninf(self, node, st):
         (v,) = self._sargs(node, st)
-        return Z.mk_b(Val.is_ninf(v))
+        return Z.mk_b(Z.is_ninf(v))
 
     def spec_is_callable(self, node, st):
         (v,) = self._sargs(node, st)
@@ -1096,7 +1101,18 @@ class CallsMixin:
         args = self._sargs(node, st)
         a = Z.addr(args[0])
         n = st.heap.len_of(a) if len(args) == 1 else Z.ival(args[1])
+        self.sum_terms.append((st.heap.elems(a), n))
         return Z.mk_r(Z.SUMR(st.heap.elems(a), n))
+
+    def spec_range_sum(self, node, st):
+        """range_sum('F', first, count, step) = sum_{k<count} num(F(first + k*step)) for the uninterpreted F"""
+        name = node.args[0].value
+        first, count, step = [Z.ival(self.ev1(a, st)) for a in node.args[1:4]]
+        f = z3.Function(name, Val, Val)
+        k = z3.Int('k!rs')
+        arr = z3.Lambda([k], f(Z.mk_i(first + k * step)))
+        self.sum_terms.append((arr, count))
+        return Z.mk_r(Z.SUMR(arr, count))
 
     def spec_class_is(self, node, st):
         v = self.ev1(node.args[0], st)
